@@ -581,6 +581,14 @@ class SymEngine:
         args = tuple(self.ev(a, f, st) for a in e.args)
         kws = tuple((k.arg, self.ev(k.value, f, st)) for k in e.keywords)
         tgs = self.R.resolve_call(e, f, count=False)
+        if isinstance(e.func, ast.Name) and len(tgs) > 1:
+            # a call through a local that holds a function (`fn = a if c else b; fn(x)`): on this path the
+            # local has one value
+            cur = st.env.get(e.func.id)
+            if cur is not None and cur[0] == "fn":
+                one = [t for t in tgs if t.kind == "def" and t.func.qual == cur[1]]
+                if one:
+                    tgs = one
         tg = tgs[0]
         if isinstance(e.func, ast.Name) and e.func.id == "len" and len(args) == 1 and tg.kind == "ext":
             return self.mk_len(args[0])
@@ -612,6 +620,10 @@ class SymEngine:
                     return C(bytes(x[1] for x in args[0][1]))
                 except Exception:
                     pass
+            if any(a[0] == "call" and a[1] == "ext:iter" for a in args):
+                # a builtin that consumes an explicit iterator object is not a function of its argument:
+                # `any(it) and any(it)` asks two different questions.  The call site keeps the results apart.
+                kws = kws + (("@", (e.lineno, e.col_offset)),)
             return ("call", "ext:" + tg.name, args, kws)
         if tg.kind == "cmeth":
             recv = self.ev(tg.recv, f, st)
